@@ -51,7 +51,7 @@ def list_(delegate, *args):
 
 @specs.method
 @specs.parameter('collection', yaqltypes.Iterable())
-def flatten(collection):
+def flatten(engine, collection):
     """:yaql:flatten
 
     Returns an iterator to the recursive traversal of collection.
@@ -68,7 +68,9 @@ def flatten(collection):
     """
     for t in collection:
         if utils.is_iterable(t):
-            yield from flatten(t)
+            if utils.is_iterator(t):
+                t = utils.limit_iterable(t, engine)
+            yield from flatten(engine, t)
         else:
             yield t
 
